@@ -147,6 +147,8 @@ def generate(rng, tier='quick', stack=None, focus='general', **kw):
     if stack == 'mux' and rng.random() < 0.35:
       op['props'] = {rng.choice(PROP_KEYS): rng.choice(PROP_VALS)
                      for _ in range(rng.randint(1, 2))}
+    if rng.random() < 0.02 and m in ('echo', 'poke', 'hi'):
+      op['badarg'] = True          # an argument the Thrift codec cannot serialise: fails before the wire
     ops.append(op)
   scn['ops'] = ops
   end = t
@@ -190,7 +192,7 @@ def generate(rng, tier='quick', stack=None, focus='general', **kw):
       faults.append({'t': round(rng.uniform(0, end + 0.3), 4),
                      'do': rng.choice(['leave', 'join']), 'ep': rng.randrange(n_eps)})
   if rng.random() < 0.12:
-    faults.append({'t': round(rng.uniform(end * 0.5, end + 1.0), 4), 'do': 'close'})
+    faults.append({'t': round(rng.uniform(end * 0.5, end + 1.0), 4), 'do': 'close', 'snap': rng.random() < 0.5})
   elif rng.random() < 0.12 and ops:
     # the caller closes the client the moment one of its calls completes (e.g.
     # straight from an except block); make that call die with its connection
@@ -280,6 +282,33 @@ def generate_c09(rng, tier='quick', stack=None, **kw):
   scn['net'] = {'chunk': rng.choice(['none', 'some']), 'jitter': rng.choice([0.0, 0.0003]), 'dns_multi': False}
   scn['loop'] = {}
   scn['permute_sets'] = rng.random() < 0.3
+  if rng.random() < 0.12:
+    # a member leaves the server set while requests are outstanding on it (it
+    # drains), the client is closed, then the member's connection dies while
+    # the last of those requests is still pending
+    cfg['members_dynamic'] = True
+    T = res['initial_wait_interval'] + rng.choice([2.0, 4.0])
+    ep = rng.randrange(n_eps)
+    n_calls = 2 * n_eps + 1
+    if stack == 'mux' and rng.random() < 0.6:
+      # only six tags left on each connection: further requests fail to get a
+      # tag inside the transport and stay accounted to the member until they time out
+      cfg['tag_base'] = 2 ** 24 - 8
+      n_calls = 6 * n_eps + 3
+    ops = [{'t': round(1.0 + 0.001 * i, 4), 'op': 'call', 'id': 'c%d' % i, 'method': rng.choice(['echo', 'risky']),
+            'payload': 'x', 'timeout': T, 'svc': {'kind': 'drop'}, 'via': 'dispatch'} for i in range(n_calls)]
+    t = 1.2
+    faults = [{'t': t, 'do': 'leave', 'ep': ep}]
+    t += rng.choice([0.1, 0.5])
+    faults.append({'t': round(t, 3), 'do': 'close', 'snap': False})
+    t += rng.choice([0.1, 0.5, 1.0])
+    faults.append({'t': round(t, 3), 'do': rng.choice(['crash', 'reset']), 'ep': ep})
+    scn['ops'] = ops
+    scn['faults'] = faults
+    scn['directives'] = []
+    scn['horizon_extra'] = res['max_wait_interval'] + 6.0
+    scn['c09'] = {'spacing': 1.0, 'last_heal': 0.0, 'end': t}
+    return scn
   faults = []
   t = rng.choice([0.0, 0.0, 0.5, 3.0])
   last_heal = 0.0
@@ -325,7 +354,8 @@ def generate_c09(rng, tier='quick', stack=None, **kw):
       o['svc'] = {'delay': rng.choice([0.001, 0.01]), 'kind': rng.choice(['reset', 'close'])}
       scn['close_on'] = o['id']
     else:
-      faults.append({'t': round(o['t'] + rng.choice([0.0005, 0.003, 0.02]), 4), 'do': 'close'})
+      faults.append({'t': round(o['t'] + rng.choice([0.0005, 0.003, 0.02]), 4), 'do': 'close',
+                     'snap': rng.random() < 0.5})
     scn['horizon_extra'] = res['max_wait_interval'] + 6.0
     del ops[k + 8:]
   faults.sort(key=lambda f: f['t'])
